@@ -433,8 +433,8 @@ package main
   (send "response" (of "(*main.store).add") (requires answers-with-this-requests-result (and (called "(*main.store).add" 0) (= $ch (. (local req) response)) (= (. $v err) (. (callresult "(*main.store).add" 0 0) err)))))
   (callsite "(*main.store).remove" 0 (requires arguments-are-the-requests (and (= $0 s) (= $1 (. (local req) username)))))
   (send "response" (of "(*main.store).remove") (requires answers-with-this-requests-result (and (called "(*main.store).remove" 0) (= $ch (. (local req) response)) (= (. $v err) (. (callresult "(*main.store).remove" 0 0) err)))))
-  (callsite "(*main.store).update" 0 (requires arguments-are-the-requests (and (= $0 s) (= $1 (. (local req) username)) (= $2 (. (local req) password)))))
-  (callsite "(*main.store).update" 1 (requires upgrade-uses-login-credentials (and (= $0 s) (= $1 (. (local req) username)) (= $2 (. (local req) password)) (= (. (local req) response) nil))))
+  ; both the answered update and the local hash upgrade (no reply channel) write exactly what the request carries
+  (callsite "(*main.store).update" * (requires arguments-are-the-requests (and (= $0 s) (= $1 (. (local req) username)) (= $2 (. (local req) password)))))
   (send "response" (of "(*main.store).update") (requires answers-with-this-requests-result (and (called "(*main.store).update" 0) (= $ch (. (local req) response)) (= (. $v err) (. (callresult "(*main.store).update" 0 0) err)))))
   (callsite "(*main.store).setAdmin" 0 (requires arguments-are-the-requests (and (= $0 s) (= $1 (. (local req) username)) (= $2 (. (local req) isAdmin)))))
   (send "response" (of "(*main.store).setAdmin") (requires answers-with-this-requests-result (and (called "(*main.store).setAdmin" 0) (= $ch (. (local req) response)) (= (. $v err) (. (callresult "(*main.store).setAdmin" 0 0) err)))))
